@@ -12,3 +12,16 @@ func init() {
 	funcs.InitLog(nop)
 	parser.InitLog(nop)
 }
+
+// disturbTexts: texts the parser rejects (unbalanced brackets of every kind, unterminated literals, rejected operands) or accepts
+// in unusual states.  The replay drivers parse one of them before every text they judge, so that a verdict never depends on the
+// pooled parser / lexer happening to be fresh: what a text parses to must not depend on what was parsed before it.
+var disturbTexts = []string{"f(a", "a)", "x = [1, 2", "x]", "if a {", "}", "\"abc", "x = (1 + ] 2", "-0x", "x = {\"k\": [1, (2", "'''open",
+	"`open", "for ;; {", "x = a[1:", "y = 1 +", ")))", "]]", "}}", "x = \"\\x", "a = 1 # c"}
+
+var disturbN int
+
+func disturbParser() {
+	disturbN++
+	_, _ = parser.ParsePipeline("junk.p", disturbTexts[disturbN%len(disturbTexts)])
+}
